@@ -164,6 +164,10 @@ def _(cx):
     poly.max_faces, poly.epsilon, poly.faces, poly.n_faces = 2, 1e-8, faces, 2
     before = faces.copy()
     dotp = dot(before[0, 0], before[0, 3])
+    if cx.mode != "sym":
+        # the two decisions of the contract (dot >= 0, dot < -bias) are evaluated here with a different summation order than np.dot:
+        # inputs within rounding distance of either threshold are not claimed (false alarm of the thorough tier, DESIGN section 12)
+        cx.assume(CB(-1.0) if (abs(float(dotp) + bias) > 1e-12 and abs(float(dotp)) > 1e-15) else CB(1.0), "gap:rounding_at_threshold")
     cx.call(poly.fix_ccw_normal_direction, 0)
     after = poly.faces
     same = lambda a, b: cx.all([cx.eq(a[i], b[i]) for i in range(3)]) if cx.mode == "sym" else CB(float(np.max(np.abs(np.asarray(a, dtype=float) - np.asarray(b, dtype=float)))))
